@@ -1,5 +1,6 @@
 /- Evaluates regenerated kernels / spec functions on given inputs (differential tests against the Python code). -/
 import MoreExec.Gen.K3
+import MoreExec.Model.BoolOp
 open MoreExec.Gen
 
 namespace Driver
@@ -12,8 +13,36 @@ def parseJobs : List String → List GJob
 
 def showJobs (js : List GJob) : String := String.intercalate " " (js.map (fun j => toString j.future.id))
 
+def parseIns : List String → List GIn
+  | i :: c :: e :: rid :: rt :: rest =>
+      ⟨nat! i, c = "1", (if e = "-" then none else some ⟨nat! e, true⟩), ⟨nat! rid, rt = "1"⟩⟩ :: parseIns rest
+  | _ => []
+
+def showOutcome : Option MoreExec.BoolOp.Outcome → String
+  | none => "pending"
+  | some (.ok v) => s!"ok:{v.id}"
+  | some (.err e) => s!"err:{e.id}"
+  | some .cancelled => "cancelled"
+
+def boolFold (k : MoreExec.BoolOp.Kind) (outId : String) (ids : String) (rest : List String) : String :=
+  let idl := ((ids.splitOn ",").filter (fun x => x ≠ "" && x ≠ "-")).map nat!
+  let r := (parseIns rest).foldl (MoreExec.BoolOp.handleDone k (nat! outId)) (MoreExec.BoolOp.initSt idl)
+  s!"{showOutcome r.out} [{String.intercalate " " (r.cancels.map toString)}] {r.done}"
+
+def boolUpdate (k : MoreExec.BoolOp.Kind) (outId ids done0 : String) (rest : List String) : String :=
+  let idl := ((ids.splitOn ",").filter (fun x => x ≠ "" && x ≠ "-")).map nat!
+  match parseIns rest with
+  | f :: _ =>
+    let r := MoreExec.BoolOp.update k idl (nat! outId) (done0 = "1") f
+    s!"{r.1} {r.2.1} [{String.intercalate " " (r.2.2.1.map toString)}] {r.2.2.2}"
+  | [] => "?"
+
 def oracleLine (ws : List String) : String :=
   match ws with
+  | "k5.fold" :: "or" :: outId :: ids :: rest => boolFold .or outId ids rest
+  | "k5.fold" :: "and" :: outId :: ids :: rest => boolFold .and outId ids rest
+  | "k5.update" :: "or" :: outId :: ids :: d :: rest => boolUpdate .or outId ids d rest
+  | "k5.update" :: "and" :: outId :: ids :: d :: rest => boolUpdate .and outId ids d rest
   | "k3.partition" :: now :: rest =>
       let r := K3.partitionJobs (parseJobs rest) (nat! now)
       s!"[{showJobs r.1}] [{showJobs r.2}]"
